@@ -70,6 +70,9 @@ def closure_body(prog, parent_path, idx_path):
 
 def check(env, rep, tier):
     include(rep, env, tier, "c14", ("C14.2",), "C15.7", "'since its last acknowledgement or registration': registering again stores a fresh observer (count 0) on every path")
+    include(rep, env, tier, "c06", ("C06.7", "C06.8"), "C15.8",
+            "'a notification built from it carries that sequence': the sequence travels in the Observe option, so the option setter has to store "
+            "the number it is given whole (not masked or cut) in the shortest big-endian form")
     configs = ["default"] if tier == "quick" else ["default", "nodefault"]
     rep.configs = configs
     for cfg in configs:
